@@ -705,7 +705,7 @@ func runC16(c *core.Ctx) {
 		if i%3 != 2 {
 			src = wl.SoupFrom(r, c16Soup, 2+r.Intn(14))
 		} else {
-			src = wl.Mix(r, corpus)
+			src = mixDoc(r, corpus)
 			for k := 1 + r.Intn(3); k > 0; k-- {
 				p := r.Intn(len(src) + 1)
 				ins := c16Soup[r.Intn(len(c16Soup))]
